@@ -1,4 +1,5 @@
 """C02 — causal-gap buffer: nothing lost or stuck (structural clauses)."""
+import re
 from ylib import facts as F
 from .common import *  # noqa
 
@@ -450,6 +451,37 @@ def rule_g(R, ctx, rid="C02.g"):
              "no `return Ok(Some(..))` tests the dependency `%s` (%s): items would integrate before it arrived" % (nm, fld))
 
 
+def rule_h(R, ctx, rid="C02.h"):
+    Y = ctx.yrs
+    R.rule(rid, "R-PROV the frontier cached during Update::integrate only moves forward: the per-client `local_clock` obtained from "
+                "`state.entry(client).or_insert_with(get_clock)` is stored to only as max(<its old value>, id.clock + len) — a block "
+                "that fills an existing gap must not pull it back, or the hole prepended before the next non-adjacent block of that "
+                "client lies inside the store's gap and BlockStore::push erases clocks that are still missing from `skips`; and the "
+                "hole itself starts at the cached clock with length |cached − id.clock|, only under offset < 0")
+    fn = Y.fn("yrs::update::Update::integrate")
+    v = FnView(fn)
+    n = 0
+    for i, j, st in fn.stmts():
+        d = st["dst"]
+        if not (isinstance(d, dict) and d["p"] == ["*"] and "u32" in str(fn.local_ty(d["l"]))):
+            continue
+        df = mir_def(fn, {"c": d["l"]})
+        if not (df and df[0] == "call" and re.search(r"Entry(<.*>)?::or_insert(_with)?$", df[1].name)):
+            continue
+        n += 1
+        t = simp_deep(v.terms.rvalue(st["rv"], 14))
+        ok = False
+        if t[0] == "call" and re.search(r"(Ord(<.*>)?>?::max|::max)$", t[1]) and len(t[2]) == 2:
+            olds = [a for a in t[2] if term_has_call(a, "re:Entry(<.*>)?::or_insert(_with)?$") and not [x for x in walk(a) if x[0] == "bin"]]
+            news = [a for a in t[2] if [x for x in walk(a) if x[0] == "bin" and x[1] in ("Add", "AddWithOverflow")]]
+            ok = bool(olds) and bool(news)
+        R.ob(rid, fn, "cached-frontier#%d" % (n - 1), ok,
+             "local_clock := max(local_clock, id.clock + len)" if ok else
+             "the cached per-client frontier is overwritten with %s: it can move backwards after a block that fills a gap" % sshow(t, 6),
+             "%s:%s" % (fn.file, st["line"]))
+    R.floor(rid, "stores to the cached frontier in Update::integrate", n, 1)
+
+
 def check(ctx, R):
     R.run("C02.a", rule_a, ctx)
     R.run("C02.b", rule_b, ctx)
@@ -458,6 +490,7 @@ def check(ctx, R):
     R.run("C02.d", rule_d, ctx)
     R.run("C02.f", rule_f, ctx)
     R.run("C02.g", rule_g, ctx)
+    R.run("C02.h", rule_h, ctx)
     from . import preds
     R.run("C02.p", lambda R, c: preds.rule(R, c, "C02.p", ["is_missing"]), ctx)
     return {}
